@@ -119,6 +119,22 @@ static void check_rule(unsigned n, double a, double b)
 		ld direct = 0;
 		for(unsigned i = 0; i < n; i++) direct += (ld)fv[i] * R[i][1];
 		if(!(fabsl(v3 - direct) <= (n + 8) * U_ * 3 * std::fabs(len))) fail(key, "weighted_sum_wrong", "overload gives " + mc::dec(v3) + " sum w_i f_i = " + mc::dec((double)direct));
+		// polynomials of degree <= 2n-1 whose values fall or rise by many orders of magnitude along the nodes, and one of alternating sign:
+		// each overload returns sum_i w_i f_i up to the rounding of a sum of n products (any summation order)
+		{
+			int k = (int)std::min<long long>(2LL * n - 1, 40);
+			double lo = std::min(a, b), wd = std::fabs(len);
+			std::function<double(double)> fam[3] = {[=](double x) { return std::pow((x - lo) / wd, k); }, [=](double x) { return std::pow(1.0 - (x - lo) / wd, k); }, [=](double x) { return std::pow(1.0 - 2.0 * (x - lo) / wd, k - 1) * (1.0 - (x - lo) / wd); }};
+			for(int fi = 0; fi < 3; fi++)
+			{
+				std::vector<double> gv(n);
+				ld dsum = 0, asum = 0;
+				for(unsigned i = 0; i < n; i++) { gv[i] = fam[fi](R[i][0]); dsum += (ld)gv[i] * R[i][1]; asum += fabsl((ld)gv[i] * R[i][1]); }
+				double u1 = Integrate_Gauss_Legendre(fam[fi], a, b, n), u2 = Integrate_Gauss_Legendre(fam[fi], R), u3 = Integrate_Gauss_Legendre(gv, R);
+				double tl = (n + 8) * U_ * (double)asum;
+				if(!(fabsl(u1 - dsum) <= tl && fabsl(u2 - dsum) <= tl && fabsl(u3 - dsum) <= tl)) fail(key + ",family=" + std::to_string(fi) + ",degree=" + std::to_string(k), "weighted_sum_wrong", "overloads give " + mc::dec(u1) + " " + mc::dec(u2) + " " + mc::dec(u3) + " sum w_i f_i = " + mc::dec((double)dsum) + " tol " + mc::dec(tl));
+			}
+		}
 		double d;
 		std::vector<double> shortv(fv.begin(), fv.end() - (n > 1 ? 1 : 0));
 		if(n > 1 && !mc::library_exits([&]() { d = Integrate_Gauss_Legendre(shortv, R); })) fail(key, "length_mismatch_not_rejected", "values shorter than the rule accepted");
@@ -194,6 +210,48 @@ int main(int argc, char** argv)
 				}
 		}
 	}
+	// re-entrancy: an integrand that itself integrates, nested up to six levels deep with a different order at every level, through both
+	// overloads that take a function; the value is the tensor-product sum over the rules of the levels
+	for(int depth = 1; depth <= 6; depth++)
+		for(int variant = 0; variant < 4; variant++)
+		{
+			if(!mc::mine(unit++)) continue;
+			std::vector<unsigned> ord(depth);
+			std::vector<std::pair<double, double>> box(depth);
+			for(int l = 0; l < depth; l++) { ord[l] = variant == 0 ? 2 : variant == 1 ? 3 : 2 + (l + variant) % 3; box[l] = {0.25 * l, 1.0 + 0.5 * l}; }
+			std::vector<std::vector<std::vector<double>>> rules(depth);
+			for(int l = 0; l < depth; l++) rules[l] = Compute_Gauss_Legendre_Roots_and_Weights(ord[l], box[l].first, box[l].second);
+			auto g = [](const std::vector<double>& x) { double p = 1; for(size_t l = 0; l < x.size(); l++) p *= (1.0 + (l + 1) * x[l]); return p + x[0]; };
+			// reference: tensor sum
+			ld ref = 0, aref = 0;
+			{
+				std::vector<unsigned> idx(depth, 0);
+				std::vector<double> x(depth);
+				while(true)
+				{
+					ld w = 1;
+					for(int l = 0; l < depth; l++) { x[l] = rules[l][idx[l]][0]; w *= rules[l][idx[l]][1]; }
+					ref += w * g(x); aref += fabsl(w * g(x));
+					int l = depth - 1;
+					while(l >= 0 && ++idx[l] == ord[l]) idx[l--] = 0;
+					if(l < 0) break;
+				}
+			}
+			for(int use_rule = 0; use_rule < 2; use_rule++)
+			{
+				std::vector<double> x(depth);
+				std::function<double(int)> level = [&](int l) -> double {
+					if(l == depth) return g(x);
+					std::function<double(double)> inner = [&, l](double t) { x[l] = t; return level(l + 1); };
+					return use_rule ? Integrate_Gauss_Legendre(inner, rules[l]) : Integrate_Gauss_Legendre(inner, box[l].first, box[l].second, ord[l]);
+				};
+				double v = NAN;
+				std::string key = "nested,depth=" + std::to_string(depth) + ",variant=" + std::to_string(variant) + ",overload=" + (use_rule ? "(func,rule)" : "(func,a,b,n)");
+				if(mc::library_exits([&]() { v = level(0); })) { fail(key, "terminated_process", "a nested integral ended the process"); continue; }
+				mc::count("nested_integrals", 1);
+				if(!(fabsl(v - ref) <= 64 * depth * U_ * aref)) fail(key, "nested_integral_is_not_the_tensor_sum", "nested value " + mc::dec(v) + " tensor-product sum " + mc::dec((double)ref));
+			}
+		}
 	mc::count("evaluations", mc::ctx().counters["rules"]);
 	mc::count("distinct_nontrivial", mc::ctx().counters["rules"]);
 	if(mc::shard0()) mc::sample("n=37 on [2,7]: 37 nodes strictly increasing inside (2,7), symmetric about 4.5, positive symmetric weights summing to 5, P_k and t^k integrated exactly for k<=60");
